@@ -13,6 +13,12 @@ Theorem C19_all_commands_present : forallb (has_cmd cli_options) commands_expect
 Proof. exact all_commands_present. Qed.
 Theorem C19_documented_options_declared : forallb (fun d => declared cli_options (fst d) (snd d)) documented_decls = true.
 Proof. exact documented_options_declared. Qed.
+(* the optimiser/optconf reach the call that is last to set the global backend state (cls, fit) *)
+Theorem C19_optimizer_state_set_last : forallb (last_carries cli_state_order) last_state_documented = true.
+Proof. exact optimizer_state_set_last. Qed.
+(* repeatable options consumed in a loop are folded over all their values (json2xml --patch) *)
+Theorem C19_multiple_options_accumulate : non_accumulating cli_multi_loops = [].
+Proof. exact multiple_options_accumulate. Qed.
 (* model level *)
 Theorem C19_file_equals_stdout : forall dumps newline (I E : Type) (library : I -> json + E) inp f,
   exit_code (run_cmd dumps newline I E library inp None) = 0 ->
@@ -29,6 +35,8 @@ Print Assumptions C19_every_option_consumed.
 Print Assumptions C19_option_reaches_documented_argument.
 Print Assumptions C19_all_commands_present.
 Print Assumptions C19_documented_options_declared.
+Print Assumptions C19_optimizer_state_set_last.
+Print Assumptions C19_multiple_options_accumulate.
 Print Assumptions C19_file_equals_stdout.
 Print Assumptions C19_exit_iff_library_ok.
 Print Assumptions C19_render_key_order_insensitive.
